@@ -971,6 +971,12 @@ func (fr *Frame) execSelect(i *ssa.Select) {
 	for si, s := range i.States {
 		if s.Dir == types.RecvOnly {
 			ch := fr.val(s.Chan)
+			if !i.Blocking {
+				// a closed Done channel is always ready: the default arm is not taken for a done context
+				if c, isDone := fr.ctxOfDoneChan(ch); isDone {
+					vc.assume(fr.reach, imp(eq(idx.T, "(- 1)"), not(sel(vc.heap(fr.st, ctxDoneHeap, ctxDoneSort), c))))
+				}
+			}
 			v := fr.freshVal("sel.recv", tup.At(n).Type())
 			savedReach := fr.reach
 			fr.reach = vc.define("selcase", SBool, and(savedReach, eq(idx.T, num(int64(si)))))
